@@ -142,7 +142,8 @@ pub fn swap_slippage_verdict(offer: u128, g: u128, sp: u128, belief: &Option<Str
     match belief {
         None => {
             if g == 0 && sp == 0 {
-                return Slip::Either;
+                // nothing is returned and nothing is lost to spread: within any limit
+                return Slip::MustAccept;
             }
             let lhs = u512(sp) * u512(E18);
             let den = u512(g) + u512(sp);
@@ -476,6 +477,14 @@ pub fn do_swap(
         }
         o => {
             let e = o.err_text();
+            if let Outcome::Panic(p) = o {
+                let short: String = p.chars().take(70).collect();
+                ctx.probe(&format!("panic: {short}"));
+                if std::env::var("WWSIM_DEBUG_PANIC").is_ok() {
+                    let p = ctx.prop.clone();
+                    ctx.fail(&p, "debug_panic", "debug", None, format!("swap {amount} side {side} belief {belief:?} ms {max_spread:?} reserves {:?} quote {:?}: {e}", before.reserves, quote));
+                }
+            }
             let slippage_err = e.contains("Spread limit exceeded");
             if let Some((g, sp, v)) = verdict {
                 if slippage_err {
